@@ -31,6 +31,23 @@ THEOREMS = {
     'nint_of': ('nintOf', ['C02', 'C06']), 'extended_prec': ('extendedPrec', ['C18']),
     'rshift_expansion': ('rshiftExpansion', ['C14']), 'lshift_word': ('lshiftWord', ['C14']),
     'valid_rounding': ('valid_rounding', ['C20']), 'valid_overflow': ('valid_overflow', ['C20']),
+    # size resolution of resize(), one obligation per pattern of given arguments
+    'resize_sizes_0000': ('resizeSizes_0000', ['C02', 'C10', 'C12']),
+    'resize_sizes_0001': ('resizeSizes_0001', ['C02', 'C10', 'C12']),
+    'resize_sizes_0010': ('resizeSizes_0010', ['C02', 'C10', 'C12']),
+    'resize_sizes_0011': ('resizeSizes_0011', ['C02', 'C10', 'C12']),
+    'resize_sizes_0100': ('resizeSizes_0100', ['C02', 'C10', 'C12']),
+    'resize_sizes_0101': ('resizeSizes_0101', ['C02', 'C10', 'C12']),
+    'resize_sizes_0110': ('resizeSizes_0110', ['C02', 'C10', 'C12']),
+    'resize_sizes_0111': ('resizeSizes_0111', ['C02', 'C10', 'C12']),
+    'resize_sizes_1000': ('resizeSizes_1000', ['C02', 'C10', 'C12']),
+    'resize_sizes_1001': ('resizeSizes_1001', ['C02', 'C10', 'C12']),
+    'resize_sizes_1010': ('resizeSizes_1010', ['C02', 'C10', 'C12']),
+    'resize_sizes_1011': ('resizeSizes_1011', ['C02', 'C10', 'C12']),
+    'resize_sizes_1100': ('resizeSizes_1100', ['C02', 'C10', 'C12']),
+    'resize_sizes_1101': ('resizeSizes_1101', ['C02', 'C10', 'C12']),
+    'resize_sizes_1110': ('resizeSizes_1110', ['C02', 'C10', 'C12']),
+    'resize_sizes_1111': ('resizeSizes_1111', ['C02', 'C10', 'C12']),
     # elementwise kernels of utils.py
     'wrap_elem': ('wrapElem', ['C03', 'C01', 'C18']), 'clip_elem': ('clipElem', ['C01', 'C02', 'C05']), 'int_clip_elem': ('intClipElem', ['C02', 'C15']),
 }
